@@ -87,6 +87,9 @@ def spec1d_case(draw, layouts=LAYOUTS, min_nf=2, max_nf=40, kinds=VALUE_KINDS,
     case.update(draw(space_time(lay)))
     if history and draw(st.integers(0, 2)) == 0:
         case["history"] = draw(st.sampled_from(HISTORIES))
+    if history and draw(st.integers(0, 3)) == 0:
+        # memory layout of the stored arrays (same values): Fortran order or a strided view into a larger buffer
+        case["memory"] = draw(st.sampled_from(["F", "strided"]))
     if dtypes and draw(st.integers(0, 3)) == 0:
         # integer storage only: the library's arithmetic promotes integers to float64, so every tolerance of the
         # float64 case applies; float32 storage would need float32-level tolerances in every clause (used in C05 only)
@@ -118,6 +121,9 @@ def spec2d_case(draw, layouts=LAYOUTS, min_nf=2, max_nf=24, min_nd=8, max_nd=144
     case.update(draw(space_time(lay)))
     if history and draw(st.integers(0, 2)) == 0:
         case["history"] = draw(st.sampled_from(HISTORIES))
+    if history and draw(st.integers(0, 3)) == 0:
+        # memory layout of the stored arrays (same values): Fortran order or a strided view into a larger buffer
+        case["memory"] = draw(st.sampled_from(["F", "strided"]))
     if dtypes and draw(st.integers(0, 3)) == 0:
         # integer storage only: the library's arithmetic promotes integers to float64, so every tolerance of the
         # float64 case applies; float32 storage would need float32-level tolerances in every clause (used in C05 only)
@@ -261,10 +267,18 @@ def _build_fresh(case):
     full = tuple(shape) + tuple(sshape)
     dims = lead + sdims
     dt = case.get("dtype") or "float64"
-    data_vars = {"variance_density": (dims, a["e"].reshape(full).astype(dt))}
+    mem = case.get("memory")
+
+    def lay(arr):
+        if mem == "F" and arr.ndim >= 2:
+            return np.asfortranarray(arr)
+        if mem == "strided" and arr.ndim >= 1:
+            return np.repeat(arr, 2, axis=-1)[..., ::2]
+        return arr
+    data_vars = {"variance_density": (dims, lay(a["e"].reshape(full).astype(dt)))}
     if not two_d:
         for m in ("a1", "b1", "a2", "b2"):
-            data_vars[m] = (dims, a[m].reshape(full).astype(dt if dt == "float32" else "float64"))
+            data_vars[m] = (dims, lay(a[m].reshape(full).astype(dt if dt == "float32" else "float64")))
     data_vars.update(dv)
     ds = xarray.Dataset(data_vars=data_vars, coords=coords)
     return (FrequencyDirectionSpectrum if two_d else FrequencySpectrum)(ds)
